@@ -1180,6 +1180,7 @@ func c14R7(p *core.Program, r *core.Report) {
 		f     *core.Func
 		as    *ast.AssignStmt
 		decl  bool
+		at    ast.Node   // the call in newPkg's code through which the store happens (nil: the store itself)
 		top   *core.Func // the literal directly nested in newPkg that contains the store (nil: newPkg itself)
 		guard bool       // stored only when the slot is free
 	}
@@ -1230,9 +1231,62 @@ func c14R7(p *core.Program, r *core.Report) {
 			stores = append(stores, st)
 			return true
 		})
+		// an arm moved into a function of the package (`p.recordFuncDecl(x)`): its stores happen at the call
+		for _, c := range core.Calls(f.Body, false) {
+			h := p.FuncOfObj(core.CalleeFunc(info, c))
+			if h == nil || h.Pkg != np.Pkg || h.Decl == nil || h.Body == nil || h == np {
+				continue
+			}
+			hinfo := h.Info()
+			hg := graph(h)
+			ast.Inspect(h.Body, func(nd ast.Node) bool {
+				if _, isLit := nd.(*ast.FuncLit); isLit {
+					return false
+				}
+				as, ok := nd.(*ast.AssignStmt)
+				if !ok || len(as.Lhs) != 1 || len(as.Rhs) != 1 {
+					return true
+				}
+				ix, ok := ast.Unparen(as.Lhs[0]).(*ast.IndexExpr)
+				if !ok {
+					return true
+				}
+				if fld := core.FieldOf(hinfo, ix.X); fld == nil || fld.Name() != "signatures" {
+					return true
+				}
+				st := store{f: f, as: as, at: c}
+				switch core.NamedTypeName(hinfo.TypeOf(as.Rhs[0])) {
+				case "go/ast.FuncDecl", "go/ast.FuncLit":
+					st.decl = true
+				}
+				for x := f; x != nil && x != np; x = x.Parent {
+					if x.Parent == np {
+						st.top = x
+					}
+				}
+				for _, fct := range hg.FactsAt(hg.PointOf(as)) {
+					v := core.VarOf(hinfo, fct.Cond)
+					if v == nil || fct.Val {
+						continue
+					}
+					if d, isDef := core.SingleDef(hinfo, h.Body, v); isDef && d.Index == 1 {
+						if dix, isIx := ast.Unparen(d.Rhs).(*ast.IndexExpr); isIx {
+							if fld := core.FieldOf(hinfo, dix.X); fld != nil && fld.Name() == "signatures" {
+								st.guard = true
+							}
+						}
+					}
+				}
+				stores = append(stores, st)
+				return true
+			})
+		}
 	}
 	pointOf := func(st store) cfgxPoint {
 		if st.top == nil {
+			if st.at != nil {
+				return g.PointOf(st.at)
+			}
 			return g.PointOf(st.as)
 		}
 		return g.PointOf(st.top.Lit)
